@@ -1,18 +1,22 @@
 #!/usr/bin/env python3
 """Re-run the quick checks against every kept seeded change and update meta.json (caught_by).
 
-    tools/reeval_seeds.py [seed-dir-names ...] [--all-props]
+    tools/reeval_seeds.py [seed-dir-names ...] [--all-props] [--seed=N]   (N != 1: report only, meta.json untouched)
 """
 import json, os, re, subprocess, sys
 allp = "--all-props" in sys.argv
+seed = next((a.split("=", 1)[1] for a in sys.argv[1:] if a.startswith("--seed=")), "1")  # other seeds: report only
 names = [a for a in sys.argv[1:] if not a.startswith("--")] or sorted(os.listdir("/verif/seeded"))
 for name in names:
     d = f"/verif/seeded/{name}"
     meta = json.load(open(f"{d}/meta.json"))
     props = [f"C{i:02d}" for i in range(1, 19)] if allp else sorted(set([meta["breaks_property"]] + meta.get("also_run", [])))
-    ev = subprocess.run(f"cd /verif && tools/seeded.py {d}/patch.diff {' '.join(props)}", shell=True, capture_output=True, text=True)
+    ev = subprocess.run(f"cd /verif && tools/seeded.py {d}/patch.diff --seed {seed} {' '.join(props)}", shell=True, capture_output=True, text=True)
     m = re.search(r"CAUGHT-BY: (.*)", ev.stdout)
     caught = m.group(1).split() if m and m.group(1) != "none" else []
+    if seed != "1":
+        print(name, f"(seed {seed}) caught by", caught or "NONE")
+        continue
     meta["checks_run"] = props
     meta["caught_by"] = caught
     meta["violation_lines"] = [ln.strip()[:200] for ln in ev.stdout.splitlines() if ln.strip().startswith("violation")][:8]
